@@ -845,15 +845,18 @@ func (e *Exec) needShamt() {
 	if e.declared["fun:shamt"] {
 		return
 	}
+	// shamt: shift amount (Int) as a 64-bit vector. Uninterpreted with its defining ladder as an
+	// axiom, so that it may occur in patterns of the bit library.
+	e.rawDecl("fun:shamt", "(declare-fun shamt (Int) (_ BitVec 64))")
 	var b strings.Builder
-	b.WriteString("(define-fun shamt ((k Int)) (_ BitVec 64) ")
+	b.WriteString("(assert (forall ((k Int)) (! (= (shamt k) ")
 	for i := 0; i < 64; i++ {
 		fmt.Fprintf(&b, "(ite (= k %d) #x%016x ", i, i)
 	}
 	b.WriteString("#x0000000000000040")
 	b.WriteString(strings.Repeat(")", 64))
-	b.WriteString(")")
-	e.rawDecl("fun:shamt", b.String())
+	b.WriteString(") :pattern ((shamt k)))))")
+	e.globalAxiom(b.String())
 }
 
 func (e *Exec) arith(st *State, op token.Token, l, r Term, t types.Type, rt types.Type, at ast.Node) Term {
